@@ -80,6 +80,14 @@ pub struct PreState {
     /// the output directory is reached through a symbolic link
     #[serde(default)]
     pub via_symlink: bool,
+    /// the last component of the output path contains bytes that are not valid UTF-8
+    /// (a Latin-1 e-acute and 0xFF): a legal directory name on Linux
+    #[serde(default)]
+    pub non_utf8: bool,
+    /// the wall clock the tool sees, frozen (seconds since the epoch; 0 = the real clock).
+    /// A tool that reads no clock cannot depend on it.
+    #[serde(default)]
+    pub clock: i64,
 }
 
 #[derive(Clone, Debug, PartialEq, Eq, Serialize, Deserialize)]
@@ -293,6 +301,23 @@ impl Invocation {
             format!("{}.pem", self.ca_base()),
         ]
     }
+    /// `args` with the output path given as an OsString (it may be non-UTF-8).
+    pub fn os_args(&self, out: &std::ffi::OsStr) -> Vec<std::ffi::OsString> {
+        const MARK: &str = "\u{1}OUTPUT\u{1}";
+        self.args(MARK)
+            .into_iter()
+            .map(|a| match a.find(MARK) {
+                Some(i) => {
+                    let mut o = std::ffi::OsString::from(&a[..i]);
+                    o.push(out);
+                    o.push(&a[i + MARK.len()..]);
+                    o
+                }
+                None => a.into(),
+            })
+            .collect()
+    }
+
     pub fn args(&self, out: &str) -> Vec<String> {
         // one group per option occurrence, so that the groups can be permuted
         let mut groups: Vec<Vec<String>> = Vec::new();
@@ -405,6 +430,20 @@ impl Engine for CliSim {
             umask: if r.chance(1, 4) { r.range(1, 3) as u8 } else { 0 },
             path_form: if r.chance(1, 4) { r.range(1, 2) as u8 } else { 0 },
             via_symlink: r.chance(1, 8),
+            non_utf8: r.chance(1, 10),
+            clock: if r.chance(1, 4) {
+                *r.pick(&[
+                    1835438400i64, // 2028-02-29 12:00:00 (leap day)
+                    951825600,     // 2000-02-29
+                    1830297599,    // 2027-12-31 23:59:59
+                    2147483647,    // 2038-01-19 03:14:07
+                    4107542399,    // 2100-02-28 23:59:59
+                    915148800,     // 1999-01-01
+                    1,             // 1970-01-01 00:00:01
+                ])
+            } else {
+                0
+            },
         };
         let n_inv = *r.pick(&[1usize, 1, 1, 2, 2, 3]);
         let mut invocations: Vec<Invocation> = Vec::new();
@@ -541,6 +580,8 @@ impl Engine for CliSim {
             || t.pre.umask != 0
             || t.pre.path_form != 0
             || t.pre.via_symlink
+            || t.pre.non_utf8
+            || t.pre.clock != 0
         {
             let mut c = t.clone();
             c.pre = PreState {
@@ -554,6 +595,8 @@ impl Engine for CliSim {
                 umask: 0,
                 path_form: 0,
                 via_symlink: false,
+                non_utf8: false,
+                clock: 0,
             };
             v.push(c);
             let mut c = t.clone();
@@ -639,12 +682,21 @@ fn scenario(t: &CliTrace, fault: Option<&(usize, Fault)>, o: &mut Outcome, label
     let _ = std::fs::remove_dir_all(&root);
     std::fs::create_dir_all(&root).expect("scratch root");
     let shm_root = PathBuf::from(format!("/dev/shm/clisim-{}-{}", std::process::id(), n));
+    // the output path relative to its base, as an OsString (it may be non-UTF-8)
+    let rel_os: std::ffi::OsString = if t.pre.non_utf8 {
+        use std::os::unix::ffi::OsStringExt;
+        let mut b = t.pre.out_rel.clone().into_bytes();
+        b.extend_from_slice(b"-caf\xE9\xFF");
+        std::ffi::OsString::from_vec(b)
+    } else {
+        t.pre.out_rel.clone().into()
+    };
     let out_dir = if t.pre.other_fs {
         let _ = std::fs::remove_dir_all(&shm_root);
         std::fs::create_dir_all(&shm_root).expect("scratch on /dev/shm");
-        shm_root.join(&t.pre.out_rel)
+        shm_root.join(&rel_os)
     } else {
-        root.join(&t.pre.out_rel)
+        root.join(&rel_os)
     };
     // the output directory reached through a symbolic link: the real directory exists, the
     // given path is a link to it (only for outputs inside the scratch root)
@@ -695,17 +747,20 @@ fn scenario(t: &CliTrace, fault: Option<&(usize, Fault)>, o: &mut Outcome, label
         // residue of an earlier fault (a target that is a directory or a symlink to /dev/full)
         // makes this invocation a faulted one too
         let residue = inv.files().iter().any(|f| matches!(before.get(f).map(|s| s.as_str()), Some("dir") | Some("symlink")));
-        let mut out_arg = if t.pre.absolute || t.pre.other_fs {
-            out_dir.to_string_lossy().to_string()
+        let mut out_arg: std::ffi::OsString = if t.pre.absolute || t.pre.other_fs {
+            out_dir.clone().into_os_string()
         } else {
+            let mut p = std::ffi::OsString::new();
             match t.pre.path_form {
-                1 => format!("./{}", t.pre.out_rel),
-                2 => format!("detour/../{}", t.pre.out_rel),
-                _ => t.pre.out_rel.clone(),
+                1 => p.push("./"),
+                2 => p.push("detour/../"),
+                _ => {}
             }
+            p.push(&rel_os);
+            p
         };
         if t.pre.trailing_slash {
-            out_arg.push('/');
+            out_arg.push("/");
         }
         let report = root.join(format!("report-{i}.json"));
         #[allow(unused_mut)]
@@ -720,7 +775,7 @@ fn scenario(t: &CliTrace, fault: Option<&(usize, Fault)>, o: &mut Outcome, label
             c.arg("-c").arg(format!("umask {mask}; exec \"$0\" \"$@\"")).arg(&bin);
             c
         };
-        cmd.args(inv.args(&out_arg)).current_dir(&root).env_clear();
+        cmd.args(inv.os_args(&out_arg)).current_dir(&root).env_clear();
         cmd.env("PATH", "/usr/bin:/bin");
         match t.pre.tmpdir {
             1 => {
@@ -738,6 +793,9 @@ fn scenario(t: &CliTrace, fault: Option<&(usize, Fault)>, o: &mut Outcome, label
             cmd.env("LD_PRELOAD", shim);
             cmd.env("DETSYS_RAND_SEED", (t.rand_seed.wrapping_add(i as u64)).to_string());
             cmd.env("DETSYS_REPORT", &report);
+            if t.pre.clock != 0 {
+                cmd.env("DETSYS_CLOCK_ABS", t.pre.clock.to_string());
+            }
             if let Some(Fault::Sys { kind, k, errno }) = &my_fault {
                 cmd.env("DETSYS_PLAN", format!("{kind}:{k}:{errno}"));
             }
@@ -786,7 +844,7 @@ fn scenario(t: &CliTrace, fault: Option<&(usize, Fault)>, o: &mut Outcome, label
         }
         let verdict = judge(inv, judged_fault, fired, code, &stderr, &before, &after, &out_dir, &mut model, o);
         if let Err((class, detail)) = verdict {
-            o.violate(&class, format!("[{label}] invocation {i} ({}): {detail}", inv.args(&out_arg).join(" ")));
+            o.violate(&class, format!("[{label}] invocation {i} ({}): {detail}", inv.args(&out_arg.to_string_lossy()).join(" ")));
             break;
         }
         res.final_snapshot = after;
